@@ -123,9 +123,9 @@ Ltac memb_hyp :=
   match goal with H : memb (pick ?s) (pool ?s) = true |- _ => apply memb_In in H end.
 
 Lemma poolinv_step c s l s' z :
-  ghostinv c s -> wfrinv s -> poolinv c s -> step c s l = Some (s', z) -> poolinv c s'.
+  corrupt s = [] -> ghostinv c s -> wfrinv s -> poolinv c s -> step c s l = Some (s', z) -> poolinv c s'.
 Proof.
-  intros GI (D1 & _) I H.
+  intros NF GI (D1 & _) I H.
   pose proof (ghost_nodup _ _ GI) as ND.
   destruct GI as (G1 & G2 & G3 & G4 & G5 & G6).
   revert I G4 G5 ND D1. unfold poolinv. revert H.
@@ -208,7 +208,7 @@ Proof.
   revert s R. apply reachP_ind.
   - split; [|apply poolinv_init].
     split; [|split; [|split]]; [apply tokinv_init|apply sizeinv_init; exact Hc|apply ghostinv_init|apply wfrinv_init].
-  - intros s0 l s1 z _ ((I1 & I2 & I3 & I4) & I5) W Hs. split.
+  - intros s0 l s1 z R0 ((I1 & I2 & I3 & I4) & I5) W Hs. pose proof (reach_nofault _ c s0 (fun l H => H) R0) as NF. split.
     + split; [|split; [|split]].
       * eapply tokinv_step; eauto.
       * eapply sizeinv_step; eauto.
